@@ -93,6 +93,9 @@ Unpause(lab) ==   \* lab = "" for the plain request
        /\ UNCHANGED <<proj, wr, ndirs, body, want, extF, dropF, wantExt, wantDrop, closed, np>>
 
 Garbage == Rejected([k |-> "req", req |-> "BOGUS"])
+\* the UNPAUSE branch has its own rejection: "UNPAUSE" followed by anything that is not " label" is refused inside the
+\* branch, before any flag is touched (a second place where "rejected" has to mean "nothing changed")
+UnpauseMalformed == Rejected([k |-> "req", req |-> "UNPAUSEX"])
 
 Label(lab) ==
   LET a == [k |-> "label", label |-> lab] IN
@@ -119,7 +122,7 @@ Block(ext, drop) ==
 Next == /\ steps < MaxSteps
         /\ \/ \E T \in TypeSets : Start(T)
            \/ Stop \/ Pause \/ Unpause("") \/ \E lab \in Labels : Unpause(lab)
-           \/ Garbage
+           \/ Garbage \/ UnpauseMalformed
            \/ \E lab \in Labels : Label(lab)
            \/ \E ext \in {<<>>, <<1>>, <<1, 2>>} : \E drop \in {0, 1} : Block(ext, drop)
 
